@@ -9,6 +9,7 @@ import (
 	"gverif/engine/args"
 	"gverif/engine/config"
 	"gverif/engine/goproto"
+	"gverif/engine/graphinv"
 	"gverif/engine/loopidx"
 	"gverif/engine/okflow"
 	"gverif/engine/overlap"
@@ -311,6 +312,32 @@ func init() {
 	}
 }
 
+func init() {
+	properties["C12"] = &property{
+		explanation: "Decides the representation mechanisms behind C12 for the 8 map-backed graph types of graph/simple and graph/multi, uid.Set and the 30 iterator types of graph/iterator, in both the default and the safe build: GRAPHINV.converse — every adjacency mutation is translated into an effect (ADD/DEL/DELROW/DELCOL/PRUNE on from/to or edges/lines, through local aliases and map-literal arms; an untranslatable mutation fails the check as an unrecognised idiom) and each method's effect set is closed under the converse, so forward and reverse adjacency stay mirror images; GRAPHINV.remove — RemoveNode deletes the key, the row and the column of every relation and releases the ID; GRAPHINV.ids — a new node key is followed on all paths by Use, Release is preceded by the key's deletion, line insertions are followed by Use on the line pool; GRAPHINV.uid — in uid.Set every update of used executes together with the dual update of free ('fresh IDs never collide with live ones'); GRAPHINV.iter — every path of Next() that can return true advances a cursor field read by Len(); CONFIG — graph/iterator, simple and multi type-check with one API under safe. Does NOT decide dense-matrix graphs, iterator Reset, panics leaving the graph unchanged, Undirect/Copy adapters.",
+		assumptions: commonAssumptions,
+		run: func(tier string, res *core.Result) {
+			for _, c := range []core.Config{{}, {Tags: "safe"}} {
+				g := graphinv.Run(c)
+				g.Floor("map_backed_graph_types", 8)
+				g.Floor("adjacency_effects", 80)
+				g.Floor("mutating_methods", 20)
+				g.Floor("remove_node_methods", 8)
+				g.Floor("uid_set_updates", 4)
+				res.Merge(g)
+				it := graphinv.RunIterators(c)
+				it.Floor("iterator_types", 12)
+				res.Merge(it)
+			}
+			cfgs := []core.Config{{}, {Tags: "safe"}}
+			if tier == "thorough" {
+				cfgs = append(cfgs, core.Config{GOARCH: "386"}, core.Config{Tags: "safe", GOARCH: "arm64"}, core.Config{Tags: "tomita"})
+			}
+			res.Merge(config.Run(cfgs, []string{"./graph/iterator", "./graph/simple", "./graph/multi", "./graph/set/uid", "./graph/internal/set", "./graph"}))
+		},
+	}
+}
+
 func dump(argv []string) {
 	if len(argv) == 0 {
 		return
@@ -342,8 +369,12 @@ func dump(argv []string) {
 		res = goproto.Run(def, core.Pkgs(argv[1:]...))
 	case "goprotorun":
 		res = goproto.RunProtocol(def)
+	case "graphinv":
+		res = graphinv.Run(def)
+		res.Merge(graphinv.RunIterators(def))
+		res.Merge(graphinv.RunIterators(core.Config{Tags: "safe"}))
 	case "twin":
-		res = twin.Run(twin.Which{Generated: true, Bounds: true, ReuseAs: true, R3: true})
+		res = twin.Run(twin.Which{Generated: true, Bounds: true, ReuseAs: true, R3: true, Siblings: []string{"graph/iterator"}})
 	case "args":
 		if argv[1] == "./lapack/gonum" {
 			res = args.Run(def, core.Pkgs(argv[1:]...), lapackArgs)
